@@ -276,4 +276,159 @@ theorem keepRow_of_primary_name (vs : List Value) (hs : vs.Pairwise R) (hf : Val
   have hn := hname p hpin hpv
   simp [hn]
 
+/-! ### rows of an accepted generation -/
+
+theorem trait_mem_shape {o : Options} {f : FileDef} {t : TypeDecl} {g : GenFull} (h : genFull o f t = .ok g)
+    (td : TraitDesc) (htd : td ∈ g.traits) :
+    ∃ j col, td = mkTrait o (sortedValues f t.name) (j, col) := by
+  obtain ⟨ts, hts, hg, _⟩ := genFull_ok h
+  subst hg
+  match hvs : sortedValues f t.name with
+  | [] =>
+    rw [hvs] at hts
+    simp [genTraits] at hts
+    subst hts
+    cases htd
+  | first :: rest =>
+    rw [hvs] at hts
+    have hperm := genTraits_ok hts
+    obtain ⟨p, _, hp⟩ := List.mem_map.mp (hperm.mem_iff.mp htd)
+    exact ⟨p.1, p.2, hp.symm⟩
+
+/-- facts about a row of a trait of an accepted generation: its owner is one of the sorted values,
+its constant has the trait's type, and within the trait a row is determined by its owner's name -/
+theorem row_facts {o : Options} {f : FileDef} {t : TypeDecl} {k : IntKind} {g : GenFull}
+    (h : genFull o f t = .ok g) (ha : Accepted f t.name k)
+    (td : TraitDesc) (htd : td ∈ g.traits) (r : TraitRow) (hr : r ∈ td.rows) :
+    r.owner ∈ sortedValues f t.name ∧ r.dyn.ty = td.ty ∧
+    ∀ r' ∈ td.rows, r'.owner.name = r.owner.name → r' = r := by
+  obtain ⟨j, col, rfl⟩ := trait_mem_shape h td htd
+  have hrow : ∀ x ∈ (mkTrait o (sortedValues f t.name) (j, col)).rows,
+      ∃ v ∈ sortedValues f t.name, ∃ s, v.tvals[j]? = some s ∧ x = ⟨v, ⟨col.ty, s⟩⟩ := by
+    intro x hx
+    have hx1 := (List.mem_filter.mp hx).1
+    unfold rowsOf at hx1
+    obtain ⟨v, hv, hm⟩ := List.mem_filterMap.mp hx1
+    cases hs : v.tvals[j]? with
+    | none => rw [hs] at hm; cases hm
+    | some s =>
+      rw [hs] at hm
+      exact ⟨v, hv, s, hs, by simpa using hm.symm⟩
+  obtain ⟨v, hv, s, hs, rfl⟩ := hrow r hr
+  refine ⟨hv, rfl, ?_⟩
+  intro r' hr' hname
+  obtain ⟨v', hv', s', hs', rfl⟩ := hrow r' hr'
+  obtain ⟨c, hc, _, rfl⟩ := mem_sortedValues.mp hv
+  obtain ⟨c', hc', _, rfl⟩ := mem_sortedValues.mp hv'
+  have : c' = c := const_eq_of_name ha.names hc' hc hname
+  subst this
+  rw [hs] at hs'
+  injection hs' with e
+  subst e
+  rfl
+
+/-! ### the switch, read backwards -/
+
+theorem parse_some (g : GenOut) (d : Dyn) (w : Int) (h : g.parse d = some w) :
+    (∃ c ∈ g.cases, d ∈ c.consts ∧ w = c.target.val) ∨
+    (∃ lc s, g.lowerCases = some lc ∧ d = Dyn.ofString s ∧ ∃ p ∈ lc, p.1 = asciiLower s ∧ w = p.2.val) := by
+  unfold GenOut.parse at h
+  cases hf : g.cases.find? (fun c => c.consts.contains d) with
+  | some c =>
+    rw [hf] at h
+    injection h with h
+    left
+    exact ⟨c, List.mem_of_find?_eq_some hf, by simpa using List.find?_some hf, h.symm⟩
+  | none =>
+    rw [hf] at h
+    right
+    simp only [] at h
+    split at h
+    · rename_i lc s hl
+      cases hq : lc.find? (fun p => p.1 == asciiLower s) with
+      | none => rw [hq] at h; cases h
+      | some p =>
+        rw [hq] at h
+        injection h with h
+        exact ⟨lc, s, hl, rfl, p, List.mem_of_find?_eq_some hq, by simpa using List.find?_some hq, h.symm⟩
+    · cases h
+
+theorem firstSome_eq {α : Type} (l : List (Option α)) (v : α)
+    (h1 : ∀ x ∈ l, x = none ∨ x = some v) (h2 : some v ∈ l) : firstSome l = some v := by
+  induction l with
+  | nil => cases h2
+  | cons x xs ih =>
+    rcases h1 x (by simp) with hx | hx
+    · subst hx
+      rcases List.mem_cons.mp h2 with e | h2'
+      · cases e
+      · exact ih (fun y hy => h1 y (List.mem_cons_of_mem _ hy)) h2'
+    · subst hx; rfl
+
+/-- Go's integer conversion is the identity on values of the target type -/
+theorem wrapTo_id (signed : Bool) (bits : Nat) (hb : 1 ≤ bits) (x : Int)
+    (hx : if signed then -((2 : Int) ^ (bits - 1)) ≤ x ∧ x < (2 : Int) ^ (bits - 1) else 0 ≤ x ∧ x < (2 : Int) ^ bits) :
+    wrapTo signed bits x = x := by
+  unfold wrapTo
+  have hpow : (2 : Int) ^ bits = 2 * (2 : Int) ^ (bits - 1) := by
+    have : bits = (bits - 1) + 1 := by omega
+    rw [this, Int.pow_succ]; simp; omega
+  have hpos : (0 : Int) < (2 : Int) ^ (bits - 1) := Int.pow_pos (by decide)
+  generalize (2 : Int) ^ (bits - 1) = hlf at *
+  rw [hpow]
+  cases signed
+  · simp only [Bool.false_eq_true, if_false] at hx
+    simp only [Bool.false_and, Bool.false_eq_true, if_false]
+    rw [hpow] at hx
+    exact Int.emod_eq_of_lt hx.1 hx.2
+  · simp only [if_true] at hx
+    simp only [Bool.true_and]
+    have h2 : (2 * hlf) / 2 = hlf := by omega
+    rw [h2]
+    by_cases hneg : x < 0
+    · have : x % (2 * hlf) = x + 2 * hlf := by
+        have := Int.emod_emod_of_dvd x (Int.dvd_refl (2 * hlf))
+        have h3 : (x + 2 * hlf) % (2 * hlf) = x % (2 * hlf) := by simp
+        rw [← h3]; exact Int.emod_eq_of_lt (by omega) (by omega)
+      rw [this]
+      have : decide (x + 2 * hlf ≥ hlf) = true := by simp; omega
+      rw [this]; simp
+    · have : x % (2 * hlf) = x := Int.emod_eq_of_lt (by omega) (by omega)
+      rw [this]
+      have : decide (x ≥ hlf) = false := by simp; omega
+      rw [this]; simp
+
+/-! ### decoders: nothing parses, nothing decodes -/
+
+theorem firstSome_none {α : Type} (l : List (Option α)) (h : ∀ x ∈ l, x = none) : firstSome l = none := by
+  induction l with
+  | nil => rfl
+  | cons x xs ih =>
+    have hx := h x (by simp)
+    subst hx
+    exact ih (fun y hy => h y (List.mem_cons_of_mem _ hy))
+
+theorem stringTry_none (g : GenFull) (s : String) (h : ∀ ty, g.base.parse ⟨ty, .str s⟩ = none) :
+    stringTry g s = none := by
+  unfold stringTry
+  rw [show Dyn.ofString s = ⟨"string", .str s⟩ from rfl, h "string"]
+  apply firstSome_none
+  intro x hx
+  obtain ⟨t, _, rfl⟩ := List.mem_map.mp hx
+  exact h t.ty
+
+theorem numericTry_none (g : GenFull) (signed : Bool) (x : Int) (h : ∀ ty, g.base.parse ⟨ty, .int x⟩ = none) :
+    numericTry {} g signed x = none := by
+  unfold numericTry
+  apply firstSome_none
+  intro y hy
+  obtain ⟨t, _, rfl⟩ := List.mem_map.mp hy
+  simp only []
+  generalize wrapTo signed _ x = w
+  by_cases hc : w = x
+  · subst hc; simp [h t.ty]
+  · have : (({} : Quirks).noRangeGuard || w == x) = false := by simp [hc]
+    rw [this]; rfl
+
+
 end Genum
